@@ -40,13 +40,45 @@ def main(repo, out):
     body, _ = block_after(src, r'pub\s+fn\s+define_flag\s*\([^)]*\)\s*')
     ok_def = body is not None and re.search(r'assert!\(index\s*<\s*NUM_BITS\);\s*assert!\(matches!\(name,\s*diff_flag_char_pat!\(\)\)\);\s*self\.flag_default_enable\.set_bit\(index\s+as\s+_,\s*enable\);\s*self\.by_name\.insert\(name,\s*index\s+as\s+_\);\s*self\.by_flag\.insert\(index\s+as\s+_,\s*name\);\s*$', body.strip())
     if not ok_def: notes.append('unrecognised define_flag body')
-    text = '(* GENERATED by gen/diffflags.py from src/context/diff_flags.rs -- do not edit *)\n'
+    # define_flag_from_mapfile: is a name that another flag currently prints as rejected?  (fix c14-flag-name-repoint)
+    nsrc = re.sub(r'\s+', '', src)
+    m = re.search(r"'\+'=>true,_=>returnErr\(invalid_definition\(\)\),\};(.*?)self\.define_flag\(name,index\.valueas_,enable\);Ok\(\(\)\)\}", nsrc)
+    repoint = None
+    if m:
+        mid = m.group(1)
+        if mid == '': repoint = False
+        elif re.fullmatch(r"ifletSome\(\(&other,_\)\)=self\.by_flag\.iter\(\)\.find\(\|&\(&flag,&c\)\|c==name&&flag!=index\.valueasFlagIndex\)\{returnErr\(error!\(.*\)\);\}", mid): repoint = True
+    if repoint is None: notes.append('unrecognised define_flag_from_mapfile tail'); repoint = False
+    # llir/lower.rs elaborate_diff_switches: the mask arithmetic, and whether nested switches contribute explicit positions
+    low = re.sub(r'\s+', '', strip_comments(open(repo + '/src/llir/lower.rs').read()))
+    core = ('letinstr_diff_mask=instr.stmt_data.difficulty_mask&diff_flag_names.difficulty_bits();'
+            'letinstr_aux_mask=instr.stmt_data.difficulty_mask&diff_flag_names.aux_bits();'
+            'forcase_diff_maskinswitch_props.explicit_case_bitmasks(){'
+            'letnew_diff_mask=instr_diff_mask&case_diff_mask;'
+            'if!new_diff_mask.is_empty(){'
+            'letnew_mask=new_diff_mask|instr_aux_mask;'
+            'letcase_first_difficulty=case_diff_mask.into_iter().next().unwrap();'
+            'letnew_args=select_diff_for_lower_args(args,case_first_differenceasu32);').replace('case_first_differenceasu32', 'case_first_difficultyasu32')
+    elab_ok = core in low and 'ifswitch_props.num_difficulties<2{out.push(stmt);continue\'stmt;}' in low
+    if not elab_ok: notes.append('unrecognised elaborate_diff_switches body')
+    flat_meta = 'forarginargs{ifletLowerArg::DiffSwitch(cases)=&arg.value{switch_props.update(cases);}}' in low
+    nested_meta = ('forarginargs{update_switch_props(&mutswitch_props,&arg.value);}' in low and
+                   'fnupdate_switch_props(switch_props:&mutds_util::DiffSwitchMeta,arg:&LowerArg){ifletLowerArg::DiffSwitch(cases)=arg{switch_props.update(cases);forcaseincases.iter().flatten(){update_switch_props(switch_props,&case.value);}}}' in low)
+    if flat_meta == nested_meta: notes.append('unrecognised collection of explicit switch positions')
+    dsu = re.sub(r'\s+', '', strip_comments(open(repo + '/src/diff_switch_utils.rs').read()))
+    sel_ok = ('assert!(difficulty<cases.len()asu32);(0..=difficultyasusize).rev().filter_map(move|i|cases[i].as_ref()).next().expect("there\'salwaysaneasyvalue")' in dsu and
+              'letmutstops=self.explicit_difficulties.into_iter().chain(core::iter::once(self.num_difficultiesasu32));letmutprev=stops.next().expect("alwaysatleastonecase");stops.map(move|stop|{debug_assert!(prev<stop,"explicit_difficultiesnotsorted,orbadlen");letbitset=(prev..stop).collect();prev=stop;bitset})' in dsu)
+    if not sel_ok: notes.append('unrecognised diff_switch_utils (select_diff_switch_case / explicit_case_bitmasks)')
+    text = '(* GENERATED by gen/diffflags.py from src/context/diff_flags.rs, src/llir/lower.rs, src/diff_switch_utils.rs -- do not edit *)\n'
     text += 'From Coq Require Import NArith List.\nImport ListNotations.\nOpen Scope N_scope.\n'
     text += 'Definition gen_num_bits : nat := %d%%nat.\n' % num_bits
     text += 'Definition gen_flag_char_ranges : list (N * N) := [%s].\n' % '; '.join('(%d, %d)' % r for r in ranges)
     text += 'Definition gen_default_names : list N := [%s].\n' % '; '.join(str(c) for c in names)
     text += 'Definition gen_special_chars : N * N * N := (%d, %d, %d).  (* disable, enable, all *)\n' % special
     text += 'Definition gen_define_flag_recognised : bool := %s.\n' % ('true' if ok_def else 'false')
+    text += 'Definition gen_repoint_check : bool := %s.  (* define_flag_from_mapfile rejects a name another flag prints as *)\n' % ('true' if repoint else 'false')
+    text += 'Definition gen_elaborate_recognised : bool := %s.\n' % ('true' if (elab_ok and sel_ok) else 'false')
+    text += 'Definition gen_nested_meta : bool := %s.  (* explicit positions are collected through nested switches *)\n' % ('true' if nested_meta else 'false')
     text += '(* translator notes:\n' + ''.join('   %s\n' % n.replace('*)', '* )') for n in notes) + '*)\n'
     write_if_changed(out, text)
     for n in notes: print('diffflags: ' + n)
